@@ -181,7 +181,7 @@ def oracle(seq, outs):
         body = line.split("|", 1)[1] if "|" in line else line
         nbad = len(bad)
         if "!timeout" in line:
-            bad.append(("%s never returned within the harness budget (8 s) although every task it has to wait for had been "
+            bad.append(("%s never returned within the harness budget (4 s) although every task it has to wait for had been "
                         "let finish: it waits for the wrong job or for nothing that will ever happen: %s" % (o, line), None))
             return bad
         if "!" in line:
